@@ -5,6 +5,7 @@ functions, canonical repr), the child driver, spec-side case features.
 Pattern (JSON from TLC): {"t": kind, "v": text, "a": [sub-patterns], "ks": [key texts | attribute names]}.
 Names follow the spec: capture "v"+path, star "s"+path, as "w"+path (inner pattern: path+"0"),
 **rest "r"+path; child i extends the path by the digit i; alternatives share the path."""
+import collections
 import json
 import os
 import re
@@ -250,6 +251,7 @@ from c31rt import PyE as E
 DRIVER = r'''
 import importlib, json, os, sys
 rtdir, mode, target, inf, start = sys.argv[1], sys.argv[2], sys.argv[3], sys.argv[4], int(sys.argv[5])
+skip = set(sys.argv[6].split(",")) if len(sys.argv) > 6 and sys.argv[6] else set()
 sys.path.insert(0, rtdir)
 sys.path.insert(0, os.path.dirname(target))
 import c31rt as rt
@@ -268,6 +270,8 @@ items = work["items"]
 out = sys.stdout
 for idx in range(start, len(items)):
     fname, si, gs = items[idx]
+    if fname in skip:
+        continue
     L = []
     rt.CUR[0] = L
     rt.GS[:] = gs
@@ -459,32 +463,83 @@ def relevant_typings(stmt):
 # --------------------------------------------------------------------------- spec-side features of a statement
 
 DUP_KEYS = (("1", "K.i1"), ("'k'", "K.k"))
+LIT_CANON = {"K.i1": "1", "K.sa": "'a'", "K.none": "None", "K.k": "'k'", "K.E": "<?_LogEq>"}
+
+
+def _value_only(p):
+    """or-pattern whose alternatives are literal / value patterns only (no names, no wildcard)"""
+    return p["t"] == "or" and all(c["t"] in ("lit", "val") or _value_only(c) for c in p["a"])
+
+
+def _under_as(p):
+    while p["t"] == "as":
+        p = p["a"][0]
+    return p
+
+
+def _outer(p):
+    """the pattern and what `as` / `or` wrap directly around the same subject"""
+    yield p
+    if p["t"] in ("as", "or"):
+        for c in p["a"]:
+            for x in _outer(c):
+                yield x
 
 
 def hazards(stmt):
-    """features of the statement (spec side) that known findings refer to"""
-    hz = set()
-    for c in stmt["cases"]:
+    """features of the statement (spec side) that known findings refer to: {feature: first case that has it}"""
+    hz = {}
+
+    def add(name, j):
+        hz.setdefault(name, j)
+    for j, c in enumerate(stmt["cases"], 1):
+        for p in _outer(c["p"]):
+            if p["t"] == "seq" and any(k["t"] not in ("wild", "starw") for k in p["a"]):
+                add("sequence-pattern-on-subject", j)       # a sequence pattern that takes items out of the subject itself
         for p in walk(c["p"]):
-            if p["t"] == "map":
+            t = p["t"]
+            if t == "as" and _under_as(p)["t"] in ("lit", "val") and _under_as(p)["v"] not in ("None", "True", "False"):
+                add("as-of-value-pattern", j)
+            if t == "cls":
+                for v in p["a"]:
+                    if _value_only(_under_as(v)):
+                        add("value-alternatives-in-class-pattern", j)
+            if t == "map":
                 ks = p["ks"]
                 if any(a in ks and b in ks for a, b in DUP_KEYS):
-                    hz.add("map-runtime-duplicate-key")
-                if "K.missing" in ks:
-                    hz.add("map-key-missing-const")
+                    add("map-runtime-duplicate-key", j)
                 for v in p["a"]:
                     if v["t"] == "as" and v["a"][0]["t"] == "wild":
-                        hz.add("map-value-wildcard-as")
-            elif p["t"] == "cls":
+                        add("map-value-wildcard-as", j)
+            elif t == "cls":
                 ks = p["ks"]
                 npos = sum(1 for k in ks if not k)
-                if p["v"] in ("P", "P2", "E", "Boom"):
-                    pos_names = ["a", "b"][:npos]
-                    if any(k in pos_names for k in ks if k):
-                        hz.add("class-duplicate-attribute")
-                if p["v"] == "Boom" and (npos >= 1 or "a" in ks):
-                    hz.add("class-attribute-getter-raises")
-    return sorted(hz)
+                if p["v"] in ("P", "P2", "E", "Boom") and any(k in ["a", "b"][:npos] for k in ks if k):
+                    add("class-duplicate-attribute", j)
+                if p["v"] == "Boom" and npos >= 1:
+                    add("class-positional-getter-raises", j)
+    return hz
+
+
+def as_value_aliases(stmt, j):
+    """{as-name: canonical texts of the pattern values} for the `<literal or constant> as name` patterns of case j"""
+    out = {}
+
+    def rec(p, path):
+        t = p["t"]
+        if t == "as":
+            inner = _under_as(p)
+            if inner["t"] in ("lit", "val") and inner["v"] not in ("None", "True", "False"):
+                out.setdefault("w" + path, set()).add(LIT_CANON.get(inner["v"], inner["v"]))
+            rec(p["a"][0], path + "0")
+        elif t == "or":
+            for c in p["a"]:
+                rec(c, path)
+        else:
+            for i, c in enumerate(p["a"], 1):
+                rec(c, path + str(i))
+    rec(stmt["cases"][j - 1]["p"], "")
+    return out
 
 
 def top_kinds(stmt):
@@ -493,17 +548,21 @@ def top_kinds(stmt):
 
 # --------------------------------------------------------------------------- running
 
+CRASH_CAP = 3     # after this many crashes of one function its remaining items are not run ("SKIPPED")
+
+
 def run_items(rtdir, mode, target, subjects, items, tag, timeout=900):
-    """items: [[funcname, si, gs], ...] -> list of [log, exc] | "CRASH:<sig>" | "TIMEOUT" (one per item)."""
+    """items: [[funcname, si, gs], ...] -> list of [log, exc] | "CRASH:<sig>" | "TIMEOUT" | "SKIPPED" (one per item)."""
     wd = os.path.dirname(target)
     inf = os.path.join(wd, tag + "_in.json")
     with open(inf, "w") as f:
         json.dump({"subjects": subjects, "items": items}, f)
     res = [None] * len(items)
     start = 0
-    crashes = 0
+    crashes = collections.Counter()
+    skip = set()
     while start < len(items):
-        ch = core.run_child(DRIVER, [rtdir, mode, target, inf, str(start)], timeout=timeout, with_snapshot=False)
+        ch = core.run_child(DRIVER, [rtdir, mode, target, inf, str(start), ",".join(sorted(skip))], timeout=timeout, with_snapshot=False)
         ended = False
         for r in ch.json_lines():
             if isinstance(r, dict):
@@ -515,7 +574,7 @@ def run_items(rtdir, mode, target, subjects, items, tag, timeout=900):
         if ended and ch.rc == 0:
             break
         nxt = start
-        while nxt < len(items) and res[nxt] is not None:
+        while nxt < len(items) and (res[nxt] is not None or items[nxt][0] in skip):
             nxt += 1
         if nxt >= len(items):
             break
@@ -524,8 +583,10 @@ def run_items(rtdir, mode, target, subjects, items, tag, timeout=900):
         res[nxt] = "TIMEOUT" if ch.timed_out else ("CRASH:%d" % ch.signal if ch.crashed else "CRASH:exit%s" % ch.rc)
         if not ch.timed_out:
             core.CRASH_LOGS.append({"call": items[nxt], "target": target, "stderr": ch.err[-1500:]})
-        crashes += 1
-        if crashes > 150:
+        crashes[items[nxt][0]] += 1
+        if crashes[items[nxt][0]] >= CRASH_CAP:
+            skip.add(items[nxt][0])
+        if sum(crashes.values()) > 400:
             core.die("too many crashes in run_items (%s)" % tag)
         start = nxt + 1
-    return res
+    return ["SKIPPED" if r is None else r for r in res]
